@@ -37,7 +37,10 @@ RULE = ('[ledger] operation scripts over 5 registers holding kll_sketch<Item> (k
         'count-min, density, with copies/moves/assignments/merges taken at every stage; set-operation objects with the tracking allocator: hll_union through every '
         'union_impl branch (gadget list/set/HLL x source list/set/HLL x source lg_k below/equal/above the gadget\'s, lvalue and rvalue, down-sampled gadget), '
         'get_result of every type, reset, copy/move/assign; cpc_union, theta_union, theta_intersection, theta_a_not_b, tuple_union, tuple_intersection grown through '
-        'several sources with the result taken and the operator reused')
+        'several sources with the result taken and the operator reused; MOVED-FROM MATRIX (110 cases) for datasketches::array<double> (the heap-owning tuple summary), '
+        'update / compact array_of_doubles sketches, array_of_doubles union / intersection / A-not-B: after move construction, move assignment and a sketch passed '
+        'as rvalue to union (empty / loaded) / intersection (first / later update) / A-not-B, the moved-from object is destroyed, copy-assigned from a same-size '
+        '(array length, num_values, entry count) or different-size live object, or move-assigned (s = T(c)); then updated / queried / serialized, shown independent of its source, destroyed')
 TRUSTED = ['effect-ledger models coq/LedgerKll.v, LedgerTup.v, LedgerFi.v, LedgerReq.v, LedgerVo.v written by hand from kll_sketch_impl.hpp / kll_helper_impl.hpp, '
            'theta_update_sketch_base_impl.hpp, reverse_purge_hash_map_impl.hpp, req_compactor_impl.hpp / req_sketch_impl.hpp and var_opt_sketch_impl.hpp (sizes and constructed sets only, no item values); tied to the code by the '
            'exact comparison of live items / live item-buffer slots / flags after every operation of every generated script',
@@ -283,7 +286,9 @@ def oracle_ledger(case, irecs, mrecs):
 # ---------------------------------------------------------------------------------------------------------------------
 KIND_NAMES = {0: 'kll', 1: 'tuple', 2: 'fi', 3: 'req', 4: 'var_opt', 5: 'quantiles', 6: 'ebpps', 7: 'hll', 8: 'cpc', 9: 'theta',
               10: 'bloom', 11: 'var_opt_union', 12: 'tdigest', 13: 'count_min', 14: 'density', 15: 'hll_union', 16: 'cpc_union',
-              17: 'theta_union', 18: 'theta_intersection', 19: 'theta_a_not_b', 21: 'tuple_union', 22: 'tuple_intersection'}
+              17: 'theta_union', 18: 'theta_intersection', 19: 'theta_a_not_b', 21: 'tuple_union', 22: 'tuple_intersection',
+              23: 'array', 24: 'array_of_doubles_update', 25: 'array_of_doubles_compact', 26: 'array_of_doubles_union',
+              27: 'array_of_doubles_intersection', 28: 'array_of_doubles_a_not_b'}
 VS_PARAMS = {
     0: lambda rng: [rng.choice([8, 9, 20, 200]), 0],
     1: lambda rng: [rng.choice([5, 6]), rng.randrange(4)],
@@ -433,7 +438,7 @@ def gen_vsem(rng, tier):
         ops = [[1, 0, 7, lg, rng.randrange(3)], [1, 1, 7, rng.choice([4, 8, 12]), 0]] + [[2, rng.randrange(2), rng.randrange(10000), 1, 0] for _ in range(n)] + \
               [[14, 0], [14, 1], rng.choice([[4, 2, 0, 1, 1], [6, 1, 0, 1, 1]]), [14, 0], [14, 1], [99]]
         cases.append(dict(id='vshllmoved%d' % j, ops=ops, tags=['hll', 'assign-to-moved-from'], kind=7))
-    cases += gen_bloom_matrix(rng) + gen_growth(rng, tier) + gen_setops(rng, tier)
+    cases += gen_bloom_matrix(rng) + gen_growth(rng, tier) + gen_setops(rng, tier) + gen_arrays(rng, tier)
     return cases
 
 
@@ -570,6 +575,97 @@ def gen_setops(rng, tier):
                 if j == 3 and kind in (17, 21): ops += [[9, 0], [14, 0]]
             ops += [[99]]
             cases.append(dict(id='vssetop_%s_%d_%d' % (KIND_NAMES[kind], up[0], up[1]), ops=ops, kind=kind, tags=[KIND_NAMES[kind], 'set-operation']))
+    return cases
+
+def gen_arrays(rng, tier):
+    """datasketches::array<double> (the heap-owning summary of the array_of_doubles sketches), update / compact array_of_doubles sketches,
+       union, intersection and A-not-B with the tracking allocator.  Moved-from matrix: after every kind of move (move construction, move
+       assignment, sketch passed as rvalue to union / intersection / A-not-B) the moved-from object is destroyed, or copy-assigned from a live
+       object of the same size (array length / num_values and entry count) or of a different size, or move-assigned from such an object; then
+       it is used (update, query, serialize), shown independent of its source, and destroyed."""
+    cases = []
+    FOLLOW = [('destroy', 0, None), ('copy-assign-same', 1, 'same'), ('copy-assign-diff', 1, 'diff'), ('move-assign-same', 2, 'same'), ('move-assign-diff', 2, 'diff')]
+    S, CS, CD, T, U, TMP, X = 0, 1, 2, 3, 4, 5, 6
+    def fill(r, start, cnt):
+        return [[21, r, start, cnt, 7, 3, 0]] if cnt else []
+    def build(kind, r, lg, nv, start, cnt):
+        """a value object of the given kind in register r"""
+        if kind == 23:
+            return [[1, r, 23, nv, 0]] + [[2, r, start + i, 1 + i % 5, 0] for i in range(min(cnt, 2 * nv))]
+        if kind == 24:
+            return [[1, r, 24, lg, nv]] + fill(r, start, cnt)
+        return [[1, TMP, 24, lg, nv]] + fill(TMP, start, cnt) + [[18, r, TMP, rng.randrange(2)], [10, TMP]]
+    def operator(kind, r, lg, nv):
+        return [[1, r, kind, lg if kind == 26 else 0, nv if kind != 28 else 0]]
+    rounds = 1 if tier == 'quick' else 3
+    for rd in range(rounds):
+        for kind in (23, 24, 25):
+            movers = ['move-ctor', 'move-assign'] + ([] if kind == 23 else ['rvalue-union', 'rvalue-union-nonempty', 'rvalue-intersection', 'rvalue-intersection-second', 'rvalue-a-not-b'])
+            for mover in movers:
+                for fname, mode, which in FOLLOW:
+                    lg = rng.choice([5, 7]); nv = rng.choice([1, 2, 3, 8, 40]) if kind != 23 else rng.choice([1, 2, 5, 64, 255])
+                    nv2 = rng.choice([x for x in (1, 2, 3, 8, 17, 100) if x != nv])
+                    cnt = rng.choice([1, 3, 20, 100, 300]) if kind != 23 else 10
+                    ops = build(kind, S, lg, nv, 1, cnt)
+                    # same size: equal array length / num_values and equal entry count (other keys, other values); also fewer and more entries
+                    cnt_same = cnt if rng.random() < 0.6 else rng.choice([1, max(1, cnt // 2), cnt + 5])
+                    ops += build(kind, CS, lg, nv, 1000003, cnt_same)
+                    ops += build(kind, CD, rng.choice([5, 6]), nv2, 2000003, rng.choice([2, cnt, 50]) if kind != 23 else 7)
+                    ops += [[14, S], [14, CS], [14, CD]]
+                    f = [mode, CS if which == 'same' else CD] if mode else [0, 0]
+                    if mover == 'move-ctor':
+                        ops += [[4, T, S] + f, [14, T]]
+                    elif mover == 'move-assign':
+                        ops += build(kind, T, lg, rng.choice([nv, nv2]), 3000003, rng.choice([0, 4, cnt]))
+                        ops += [[14, T], [6, T, S] + f, [14, T]]
+                    else:
+                        ok = {'rvalue-union': 26, 'rvalue-union-nonempty': 26, 'rvalue-intersection': 27, 'rvalue-intersection-second': 27, 'rvalue-a-not-b': 28}[mover]
+                        ops += operator(ok, U, lg, nv)
+                        if mover in ('rvalue-union-nonempty', 'rvalue-intersection-second'):
+                            # the operator already holds entries, half of them with the keys of S: existing summaries are combined, new ones moved in
+                            ops += [[1, X, 24, lg, nv]] + fill(X, 1, max(1, cnt // 2)) + fill(X, 5000011, 9) + [[7, U, X], [10, X], [14, U]]
+                        ops += [[8, U, S] + f, [14, U]]
+                        if ok != 28: ops += [[18, T, U, rng.randrange(2)], [14, T], [15, T]]
+                    if mode:
+                        src = CS if which == 'same' else CD
+                        ops += [[14, S], [14, src], [15, S], [14, S]]
+                        # use the re-assigned object; its source must not change
+                        if kind == 24: ops += fill(S, 4000037, rng.choice([1, 30])) + [[14, S], [14, src], [12, S], [14, S]]
+                        elif kind == 23: ops += [[2, S, 3, 9, 0], [14, S], [14, src]]
+                        else: ops += [[16, X, S], [14, X], [10, X], [14, S]]
+                        # and the other way round: the source changes / goes away, the re-assigned object keeps its value
+                        if kind == 24: ops += fill(src, 4500037, 3) + [[14, S]]
+                        ops += [[10, src], [14, S], [11, S], [3, X, S], [14, X], [14, S], [10, S], [14, X]]
+                    ops += [[99]]
+                    cases.append(dict(id='vsarr%d_%s_%s_%s' % (rd, KIND_NAMES[kind], mover, fname), ops=ops, kind=kind,
+                                      tags=[KIND_NAMES[kind], 'moved-from-matrix', 'mover:' + mover, 'then:' + fname]))
+        # the operators themselves: move construction / move assignment of a loaded union / intersection / A-not-B, same follow-ups
+        for kind in (26, 27, 28):
+            for mover in ('move-ctor', 'move-assign'):
+                for fname, mode, which in FOLLOW:
+                    lg = rng.choice([5, 7]); nv = rng.choice([1, 3, 8]); nv2 = rng.choice([2, 5, 20])
+                    ops = []
+                    def load2(r, lg_, nv_, start, cnt):
+                        mv = rng.random() < 0.5
+                        return operator(kind, r, lg_, nv_) + [[1, X, 24, lg_, nv_]] + fill(X, start, cnt) + ([[8, r, X, 0, 0]] if mv else [[7, r, X], [10, X]])
+                    cnt = rng.choice([0, 3, 40, 200])
+                    ops += load2(S, lg, nv, 1, cnt) + load2(CS, lg, nv, 1000003, cnt) + load2(CD, 6, nv2, 2000003, rng.choice([5, 90]))
+                    ops += [[14, S], [14, CS], [14, CD]]
+                    f = [mode, CS if which == 'same' else CD] if mode else [0, 0]
+                    if mover == 'move-ctor':
+                        ops += [[4, T, S] + f, [14, T]]
+                    else:
+                        ops += load2(T, lg, rng.choice([nv, nv2]), 3000003, rng.choice([0, 30])) + [[14, T], [6, T, S] + f, [14, T]]
+                    if mode:
+                        src = CS if which == 'same' else CD
+                        snv = nv if which == 'same' else nv2
+                        slg = lg if which == 'same' else 6
+                        ops += [[14, S], [14, src], [1, X, 24, slg, snv]] + fill(X, 4000037, 25) + [[7, S, X], [14, S], [14, src], [8, src, X, 0, 0], [14, S]]
+                        if kind != 28: ops += [[18, X, S, 0], [14, X], [10, X]]
+                        ops += [[10, src], [14, S], [3, X, S], [14, X], [10, S], [14, X]]
+                    ops += [[99]]
+                    cases.append(dict(id='vsarr%d_%s_%s_%s' % (rd, KIND_NAMES[kind], mover, fname), ops=ops, kind=kind,
+                                      tags=[KIND_NAMES[kind], 'moved-from-matrix', 'mover:' + mover, 'then:' + fname]))
     return cases
 
 def oracle_vsem(case, irecs, mrecs):
